@@ -1,6 +1,6 @@
-CONSTANTS HW = 6
+CONSTANTS HW = 5
           Margin = 9
-          Marks = {0, 1, 28800, 46800, 61200, 81000, 86399}
+          Marks = {0, 1, 28800, 46800, 81000, 86399}
           WeekendNos = {1, 2, 3, 4}
           OwnAdjs = {"m", "f"}
           TPad = 2
